@@ -102,9 +102,15 @@ def configs(tier):
     srcs = ('bool', 'bool', 'cnt')
     for b0 in block_options(2, 0, allkinds, full, full, consts, None, cnt_idx=2):
         out.append(dict(srcs=srcs, blocks=(b0,), fb=None))
+    gk = ('not',) + GATES
     # A2: the same one-block networks over non-boolean values (0, 1, 2, 3, '')
     for b0 in block_options(2, 0, allkinds[:-1], ('obj', 'not'), (), consts[:1], None):
         out.append(dict(srcs=('num', 'num'), blocks=(b0,), fb=None))
+    # G: a source whose own output event fails (non-fatal) while it changes
+    for b0 in block_options(2, 0, gk, ('obj', 'not'), (), (), None, ordered=False):
+        for b1 in block_options(2, 1, gk, ('obj',), ('obj',), (), None, ordered=False):
+            for srcsx in (('boolx', 'bool'), ('boolx', 'boolx')):
+                out.append(dict(srcs=srcsx, blocks=(b0, b1), fb=None))
     # F: feedback into the block's OWN cone: a comparator (or function block) resets the counter
     # it watches, i.e. a sequential block changes twice in one burst
     for variant in ('compare', 'func-edge', 'not-not'):
@@ -123,7 +129,6 @@ def configs(tier):
         for b1 in b1s:
             out.append(dict(srcs=srcs2, blocks=(b0, b1), fb=None))
     # C: three blocks by object, gates, with and without CBlock->SBlock feedback
-    gk = ('not',) + GATES
     for fb in (None, 0, 1):
         for b0 in block_options(2, 0, gk, ('obj',), ('obj',), (), fb, ordered=False):
             for b1 in block_options(2, 1, gk, ('obj',), ('obj',), (), fb, ordered=False):
@@ -218,6 +223,15 @@ def build(cfg, vec0):
     for i, (kind, v) in enumerate(zip(cfg['srcs'], vec0)):
         if kind in ('bool', 'num'):
             srcs.append(edzed.Input(f's{i}', initdef=v))
+        elif kind == 'boolx':
+            # its output event fails (unknown event type: reported to the sender only, the
+            # simulation goes on) - the change of the output must be evaluated nevertheless
+            if 'sinkx' not in edzed.get_circuit()._blocks:
+                edzed.Input('sinkx', initdef=0)
+            srcs.append(edzed.Input(f's{i}', initdef=v, on_output=[
+                edzed.Event('sinkx', 'put', efilter=edzed.not_from_undef),
+                edzed.Event('sinkx', 'no_such_event', efilter=edzed.not_from_undef)],
+                on_every_output=edzed.Event('sinkx', 'no_such_event', efilter=edzed.not_from_undef)))
         else:
             srcs.append(edzed.Counter(f's{i}', initdef=v))
     fb = edzed.Input('fb', initdef='fb-init') if cfg['fb'] is not None else None
@@ -270,7 +284,7 @@ def build(cfg, vec0):
 
 
 def domains(cfg):
-    return [BOOL if k == 'bool' else NUM if k == 'num' else CNT for k in cfg['srcs']]
+    return [BOOL if k in ('bool', 'boolx') else NUM if k == 'num' else CNT for k in cfg['srcs']]
 
 
 _PLANS = {}
@@ -331,7 +345,11 @@ def run_network(cfg, perm, acc):
             for (frm, burst) in plan:
                 vec = list(frm)
                 for i, v in burst:
-                    senders[i].send(v)
+                    try:
+                        senders[i].send(v)
+                    except edzed.EdzedUnknownEvent:
+                        if cfg['srcs'][i] != 'boolx':
+                            raise
                     vec[i] = v
                 await sim.loop.idle()
                 acc.count('bursts')
